@@ -1,4 +1,5 @@
 """C12 / C13 / C14 / C16: component-level input-space exploration."""
+import os
 import subprocess
 import vlib
 
@@ -8,6 +9,7 @@ FAMS_BIG = "grid:6:6,cube:6,grid:5:8,torus:6:6,Kb:20:20,grid:7:10,cube:7,torus:8
 
 # highly symmetric graphs (degree ties everywhere): what a vertex-numbering-dependent choice does with them depends on the
 # numbering, so each is run under a fixed menu of renumberings (--relabel N: identity + N-1 permutations of a deterministic generator)
+FAMS_LONG = "path:400000,tadpole:3:400000,cycle:300000,tadpole:300000:100000"     # recursion depth / linear-size scratch state
 FAMS_1K = "grid:33:33,cycle:1100,wheel:1030,Kb:40:40,cube:10"     # more than 1024 vertices / edges (size thresholds)
 FAMS_SYM = "antiprism:4,antiprism:5,antiprism:6,antiprism:7,prism:4,prism:5,prism:6,prism:7,prism:8,mobius:4,mobius:5,mobius:6,mobius:7,mobius:8,petersen,cube:3,Kb:3:3,wheel:6,torus:3:3"
 
@@ -42,14 +44,16 @@ SPEC = {
                        ("blob grammar K=3,T=3 (hubs with pendant pieces, up to 30 vertices)", [["--grammar", "blobs:3:3"]]),
                        ("every graph on 9 vertices with at most 6 edges", [["--n", 9, "--sparse", 6]]),
                        ("symmetric families under 500 renumberings", [["--families", FAMS_SYM + ",cube:4,grid:4:4,K:7", "--relabel", 500]]),
-                       ("graphs with more than 1024 vertices / edges under 6 renumberings", [["--families", FAMS_1K, "--relabel", 6]])],
-                thorough=[("G(8) (all 2^28 labelled graphs)", [["--n", 8]]), ("every graph on 9 / 10 / 12 vertices with at most 8 / 8 / 6 edges", [["--n", 9, "--sparse", 8], ["--n", 10, "--sparse", 8], ["--n", 12, "--sparse", 6]]), ("blob grammar K=4,T=3", [["--grammar", "blobs:4:3"]])]),
+                       ("graphs with more than 1024 vertices / edges under 6 renumberings", [["--families", FAMS_1K, "--relabel", 6]]),
+                       ("vertex-filtered views of the graph (boost::filtered_graph: vertex indices are not 0..k-1 in enumeration order): G(1..6), every non-empty subset of hidden vertices", [["--n", n, "--filtered", 1] for n in range(1, 7)]),
+                       ("very long chains of pendant removals: paths, tadpoles and cycles with 300 000 - 400 000 vertices", [["--families", FAMS_LONG, "--alpha", "M2"]])],
+                thorough=[("vertex-filtered views: G(7) under a menu of 13 hidden-vertex subsets (singles, prefixes, alternating, all but the last 3)", [["--n", 7, "--filtered", 1]]), ("G(8) (all 2^28 labelled graphs)", [["--n", 8]]), ("every graph on 9 / 10 / 12 vertices with at most 8 / 8 / 6 edges", [["--n", 9, "--sparse", 8], ["--n", 10, "--sparse", 8], ["--n", 12, "--sparse", 6]]), ("blob grammar K=4,T=3", [["--grammar", "blobs:4:3"]])]),
     "C14": dict(comp="collections",
                 rule="every labelled graph of G(n) x every weighting: Horton, FVS and ISO builders are called directly; every candidate is checked to be two root "
                      "paths meeting only at the root plus a non-tree edge with the recorded weight; FVS and ISO (root, edge) pairs must be Horton pairs; greedy by "
                      "weight with GF(2) independence over each collection must reach the dimension and the reference optimum. evaluations = builder calls; "
                      "distinct_nontrivial = distinct (graph, weighting) with cycle space dimension >= 1",
-                quick=[("G(0..4) x A3", [["--n", n, "--alpha", "A3"] for n in range(0, 5)]), ("G(5) x A2", [["--n", 5, "--alpha", "A2"]]),
+                quick=[("degree threshold of the tree representation: stars with 65 540 - 131 080 leaves plus 3 - 40 chords {i, i+65536} (a tree root with more than 65535 children), unit weights, FVS builder, optimum 3 per chord by construction", [["--comp", "collections-hub", "--families", "hub:300:0,hub:65540:3,hub:70000:40,hub:131080:5", "--alpha", "U"]]), ("G(0..4) x A3", [["--n", n, "--alpha", "A3"] for n in range(0, 5)]), ("G(5) x A2", [["--n", 5, "--alpha", "A2"]]),
                        ("G(4) x A3 plus one more component = a single edge weighing 2^60", [["--n", 4, "--alpha", "A3", "--plus-heavy-k2"]]),
                        ("weights with 26 significant bits: G(4) x B3, G(5) x B2", [["--n", 4, "--alpha", "B3"], ["--n", 5, "--alpha", "B2"]]),
                        ("pairwise distinct weights: G(4) x PM, G(5) with at most 6 edges x PM (all assignments of 1..m: distinct edges, tied paths) and x PM2 (no ties at all)",
@@ -90,11 +94,14 @@ def run(prop, tier):
     binary = _build()
     cfgbin = {"@log": vlib.build("components_cfg_log", "components.cpp", cfg=vlib.gen_config(logging=True)),
               "@noinv": vlib.build("components_cfg_noinv", "components.cpp", cfg=vlib.gen_config(invariants=False)),
-              "@ulong": vlib.build("components_ulong", "components.cpp", flags=vlib.BASE_FLAGS + ["-DVH_WTYPE=unsigned long"])}
+              "@ulong": vlib.build("components_ulong", "components.cpp", flags=vlib.BASE_FLAGS + ["-DVH_WTYPE=unsigned long"]),
+              "@cxx17": vlib.build("components_cxx17", "components.cpp", flags=vlib.CXX17_FLAGS)}
     c.builds_done()
     weighted = sp["comp"] in ("sptree", "collections")
     plan = sp["quick"] + [("other build configurations of the library (PARMCB_LOGGING on, PARMCB_INVARIANTS_CHECK off): G(4), G(5)",
-                           [[t, "--n", n] + (["--alpha", "A2"] if weighted else []) for t in ("@log", "@noinv") for n in (4, 5)])] + \
+                           [[t, "--n", n] + (["--alpha", "A2"] if weighted else []) for t in ("@log", "@noinv") for n in (4, 5)]),
+                          ("the library compiled as C++17 (language standard of the including translation unit): G(4), G(5)",
+                           [["@cxx17", "--n", n] + (["--alpha", "A2"] if weighted else []) for n in (4, 5)])] + \
         ([("unsigned integral weight type (unsigned long): G(4) x A3, G(5) x A2, tie-heavy families x U", [["@ulong", "--n", 4, "--alpha", "A3"], ["@ulong", "--n", 5, "--alpha", "A2"], ["@ulong", "--families", FAMS_TIES, "--alpha", "U"]])] if weighted else []) + \
         (sp["thorough"] if tier == "thorough" else [])
     for bound, arglists in plan:
@@ -102,16 +109,26 @@ def run(prop, tier):
             tag = args[0] if args and str(args[0]).startswith("@") else None
             if tag:
                 args = args[1:]
-            r = vlib.run_harness(cfgbin[tag] if tag else binary, ["--comp", sp["comp"]] + list(args) + ["--seed", vlib.seed(), "--deadline-s", int(c.remaining())])
-            c.add_run(r, bound + ((" [%s]" % tag[1:]) if tag else "") + " :: " + r["args"], None, replay={"harness": "components"})
+            r = vlib.run_harness(cfgbin[tag] if tag else binary, ([] if "--comp" in args else ["--comp", sp["comp"]]) + list(args) + ["--seed", vlib.seed(), "--deadline-s", int(c.remaining())])
+            c.add_run(r, bound + ((" [%s]" % tag[1:]) if tag else "") + " :: " + r["args"], None, replay={"harness": {"@log": "components_cfg_log", "@noinv": "components_cfg_noinv", "@ulong": "components_ulong", "@cxx17": "components_cxx17"}.get(tag, "components")})
     return c.finish()
 
 
 def replay(prop, path):
     rp = vlib.load_replay(path)
-    p = subprocess.run([_build(), "--replay-case", rp["case"]], stdout=subprocess.PIPE, text=True)
+    case = rp["case"]
+    if len(case) > 100000:      # longer than one argv entry may be
+        os.makedirs(os.path.join(vlib.BUILD, "out"), exist_ok=True)
+        fn = os.path.join(vlib.BUILD, "out", "replay_case_%d.txt" % os.getpid())
+        open(fn, "w").write(case); case = "@file:" + fn
+    h = (rp.get("replay") or {}).get("harness", "components")
+    binary = {"components_cfg_log": lambda: vlib.build(h, "components.cpp", cfg=vlib.gen_config(logging=True)),
+              "components_cfg_noinv": lambda: vlib.build(h, "components.cpp", cfg=vlib.gen_config(invariants=False)),
+              "components_ulong": lambda: vlib.build(h, "components.cpp", flags=vlib.BASE_FLAGS + ["-DVH_WTYPE=unsigned long"]),
+              "components_cxx17": lambda: vlib.build(h, "components.cpp", flags=vlib.CXX17_FLAGS)}.get(h, _build)()
+    p = subprocess.run([binary, "--replay-case", case], stdout=subprocess.PIPE, text=True)
     print(p.stdout)
-    if "REPLAY-VIOLATION" in p.stdout:
+    if "REPLAY-VIOLATION" in p.stdout or p.returncode < 0:      # a replay that dies on a signal reproduces a crash
         print("VIOLATION property=%s replay=%s" % (prop, path))
         return 1
     return 0
